@@ -6,12 +6,13 @@ import itertools
 from .. import env
 from .c01 import sym_bloom, hv
 from .c12 import FIXED
+from . import c04, c12, c13, c16
 
 PROPERTY = "C19"
 CROSS_CHECK = True      # thorough: dumped assertion queries are re-decided by z3 4.8.12 and cvc5 1.0
 LEVEL = "model_checking"
 STUBS = ["array/bytes/Struct/BytesIO shadows", "float/math in the Bloom modules -> opaque floats (statistics run, their values are not modelled)",
-         "cuckoo: see C03; on-disk Bloom: see C11 (c11.queries)"]
+         "cuckoo: see C03; on-disk Bloom: see C11 (c11.queries); set operations: the stubs of C04, C12, C13, C16"]
 ASSUMPTIONS = [
     "state = every cell, counter and table entry, compared term by term (and the exported bytes) before and after the read-only calls",
     "read-only calls per structure: check / check_alt / in / hashes / export / export_hex / __bytes__ / str / estimate_elements / current_false_positive_rate / export_size / load_factor / get_hashes / print / validate_metadata and property getters; the non-receiver side of union / intersection / jaccard / join / merge is asserted in C12, C13, C16 and C04",
@@ -24,7 +25,7 @@ BOUNDS = {
     "outside": "larger geometries; export_c_header",
 }
 EXPECT_LABELS = {"quick": ["bloom-queries-unchanged", "bloom-clear-is-fresh", "cbf-queries-unchanged", "cbf-clear-is-fresh", "exp-queries-unchanged",
-                           "cms-queries-unchanged", "cms-clear-is-fresh", "cuckoo-queries-unchanged", "qf-queries-unchanged", "tables-cleared"]}
+                           "cms-queries-unchanged", "cms-clear-is-fresh", "cuckoo-queries-unchanged", "qf-queries-unchanged", "tables-cleared", "operands-unchanged", "merge-leaves-second", "cbf-merge-operands-unchanged"]}
 
 
 def _same(ctx, a, b):
@@ -176,6 +177,9 @@ def qf(ctx, cfg):
 
 
 HARNESS = {"c19.bloom": bloom, "c19.expanding": expanding, "c19.cms": cms, "c19.cuckoo": cuckoo, "c19.qf": qf}
+for _m in (c04, c12, c13, c16):      # the non-receiver side of set operations: the operand-unchanged clauses of the neighbouring modules
+    for _k, _v in _m.HARNESS.items():
+        HARNESS.setdefault(_k, _v)
 
 
 def jobs(tier):
@@ -205,4 +209,9 @@ def jobs(tier):
             js.append({"h": "c19.qf", "cfg": {"qs": list(qs), "pq": qs[0] if qs else 0}, "opts": dict(o, cost=n + 1)})
             if n == 2:
                 js.append({"h": "c19.qf", "cfg": {"qs": list(qs), "pq": qs[0], "auto": True}, "opts": dict(o, cost=n + 1)})
+    # set operations leave their operands (receiver included, where a new object is returned) unchanged
+    js += [j for j in c12.jobs(tier) if j["h"] in ("c12.bloom_union", "c12.cbf_union", "c12.cms_join") and j["opts"].get("cost", 1) <= 40]
+    js += [j for j in c13.jobs(tier) if j["h"] == "c13.bloom" and j["cfg"]["est"] <= 3 or j["h"] == "c13.cbf" and j["cfg"] == {"est": 1, "fpr": .5}]
+    js += [j for j in c16.jobs(tier) if j["h"] == "c16.cbf_merge" and j["cfg"]["est"] == 1]
+    js += [j for j in c04.jobs("quick") if j["h"] == "c04.merge"]
     return js
